@@ -134,6 +134,8 @@ pub fn child_main(json: &str) {
 const OK_A: &str = "Alpha DEFINITIONS AUTOMATIC TAGS ::= BEGIN\nA ::= SEQUENCE { a INTEGER (0..7), b BOOLEAN OPTIONAL }\nv INTEGER ::= 5\nEND\n";
 const OK_B: &str = "Beta DEFINITIONS EXPLICIT TAGS ::= BEGIN\nB ::= CHOICE { x [0] NULL, y [1] UTF8String }\nEND\n";
 const WARN: &str = "Warny DEFINITIONS AUTOMATIC TAGS ::= BEGIN\nW ::= REAL\nX ::= ENUMERATED { p, q }\nEND\n";
+// bindings shorter than any output buffer and, unformatted, without a line break
+const SMALL: &str = "S DEFINITIONS AUTOMATIC TAGS ::= BEGIN\nA ::= NULL\nEND\n";
 const BAD: &str = "Broken DEFINITIONS AUTOMATIC TAGS ::= BEGIN\nA ::= SEQUENCE { a §§ }\nEND\n";
 
 fn snapshot(dir: &Path) -> BTreeMap<String, (bool, Vec<u8>)> {
@@ -195,7 +197,7 @@ static SEQ: AtomicU64 = AtomicU64::new(0);
 // fails to expand exactly when the library returns Err.  Both crates of /verif/macrocheck are expanded by rustc
 // (-Zunpretty=expanded): `ma` invokes the macro, `mb` contains the library's text for the same input.
 
-const MACRO_INPUTS: [(&str, &str, bool); 8] = [
+const MACRO_INPUTS: [(&str, &str, bool); 14] = [
     ("module", "Alpha DEFINITIONS AUTOMATIC TAGS ::= BEGIN\nA ::= SEQUENCE { a INTEGER (0..7), b BOOLEAN OPTIONAL }\nv INTEGER ::= 5\nEND\n", true),
     ("module-explicit", "Beta DEFINITIONS EXPLICIT TAGS ::= BEGIN\nB ::= CHOICE { x [0] NULL, y [1] UTF8String }\nC ::= SEQUENCE { c [5] B }\nEND\n", true),
     ("fragment", "A ::= SEQUENCE { a INTEGER (0..7), b BOOLEAN OPTIONAL }\nE ::= ENUMERATED { p, q-r }\nv INTEGER ::= 5", true),
@@ -204,14 +206,25 @@ const MACRO_INPUTS: [(&str, &str, bool); 8] = [
     ("two-modules", "Alpha DEFINITIONS AUTOMATIC TAGS ::= BEGIN\nA ::= BOOLEAN\nEND\nBeta DEFINITIONS IMPLICIT TAGS ::= BEGIN\nB ::= [1] NULL\nEND\n", true),
     ("err-module", "Broken DEFINITIONS AUTOMATIC TAGS ::= BEGIN\nA ::= SEQUENCE { a \u{a7}\u{a7} }\nEND\n", false),
     ("err-fragment", "A ::= SEQUENCE { a INTEGER,, }", false),
+    // bare snippets that merely mention BEGIN, and snippets whose last lexical item touches the wrapper's END
+    ("fragment-comment-begin", "-- BEGIN of the types\nFoo ::= INTEGER (0..7)\n", true),
+    ("fragment-begin-in-name", "BEGINNER ::= BOOLEAN\nS ::= SEQUENCE { b BEGINNER }\n", true),
+    ("fragment-begin-in-string", "kw UTF8String ::= \"BEGIN\"\n", true),
+    ("fragment-ends-in-reference", "Foo ::= INTEGER (0..7) Bar ::= Foo", true),
+    ("fragment-ends-in-comment", "Foo ::= INTEGER (0..7) -- the foo", true),
+    ("fragment-ends-in-valuereference", "foo INTEGER ::= 5 bar INTEGER ::= foo", true),
 ];
 
 fn macro_literal(text: &str) -> String {
-    // what the macro documents: a text without a module body is wrapped into a dummy AUTOMATIC TAGS module
-    if text.contains("BEGIN") {
+    // what the macro documents: a text without a module header is wrapped into a dummy AUTOMATIC TAGS module.
+    // The reference does not guess from the spelling: a text is a module when the library reads it as one (or when it
+    // names DEFINITIONS at all, for the malformed modules); everything else is a list of assignments, which is
+    // separated from the wrapper's END by white-space (X.680 12.1.3).
+    let as_is = matches!(compile_rasn(&[text.to_string()], &Cfg::default()), Outcome::Ok { .. });
+    if as_is || text.split(|c: char| !(c.is_alphanumeric() || c == '-')).any(|w| w == "DEFINITIONS") {
         text.to_string()
     } else {
-        format!("asn1 {{ dummy(999) header(999) }}\n\nDEFINITIONS AUTOMATIC TAGS::= BEGIN\n{text}END")
+        format!("asn1 {{ dummy(999) header(999) }}\n\nDEFINITIONS AUTOMATIC TAGS::= BEGIN\n{text}\nEND")
     }
 }
 
@@ -327,7 +340,7 @@ impl Prop for C20 {
         "C20"
     }
     fn rule(&self) -> String {
-        "complete matrix: input outcome {Ok, Ok-with-warnings, lexer Err, unreadable source path} × output mode {file path with/without extension, existing directory with/without a dot in its name, Stdout, NoOutput, deprecated set_output_path} × destination state {absent, existing file with other content, read-only file, read-only directory, missing parent directory, parent is a regular file, /dev/full (open succeeds, write fails)} × backend {rasn, typescript} × source kind {literal, single path, path iterator, literal+path mix}; two-step histories (Ok then Err, Err then Ok, Ok then Ok-other) on the same destination; the same matrix through the rasn_compiler_cli binary built from the working tree with -m (several files), -d (recursive directory with .asn, .asn1, other extensions, nested directories), -o, --stdout, --no-output and the default output. Every operation runs in a child process inside a private sandbox directory; stdout is captured; the directory tree is snapshotted before and after. Oracle (sem::delivery): delivered bytes = compile_to_string().generated of the same sources; directory ⇒ generated.<ext> inside; on Err the tree is unchanged and stdout empty; unwritable destination ⇒ Err(Generator(IO)), never a panic; CLI exit status 0 ⇔ library Ok. Non-trivial: the operation ran and its effects were compared.".into()
+        "complete matrix: input outcome {Ok, Ok-with-warnings, lexer Err, unreadable source path, Ok with bindings smaller than any buffer and without line break} × output mode {file path with/without extension, existing directory with/without a dot in its name, Stdout, NoOutput, deprecated set_output_path} × destination state {absent, existing file with other content, read-only file, read-only directory, missing parent directory, parent is a regular file, /dev/full (open succeeds, write fails), standard output redirected to /dev/full} × backend {rasn, typescript} × source kind {literal, single path, path iterator, literal+path mix}; two-step histories (Ok then Err, Err then Ok, Ok then Ok-other) on the same destination; the same matrix through the rasn_compiler_cli binary built from the working tree with -m (several files), -d (recursive directory with .asn, .asn1, other extensions, nested directories, a directory whose own name ends in .asn), -o, --stdout, --no-output and the default output. Every operation runs in a child process inside a private sandbox directory; stdout is captured; the directory tree is snapshotted before and after. Oracle (sem::delivery): delivered bytes = compile_to_string().generated of the same sources; directory ⇒ generated.<ext> inside; on Err the tree is unchanged and stdout empty; unwritable destination ⇒ Err(Generator(IO)), never a panic; CLI exit status 0 ⇔ library Ok. Non-trivial: the operation ran and its effects were compared.".into()
     }
     fn assumptions(&self) -> Vec<String> {
         vec![format!("read-only destinations enforced in this environment: {} (as root they are not; those rows are then reported as not realisable)", readonly_enforced())]
@@ -350,7 +363,7 @@ impl Prop for C20 {
     }
     fn enumerate(&self, _tier: Tier, _seed: u64) -> Vec<Case> {
         let mut out = vec![];
-        let inputs = ["ok", "warn", "err", "unreadable"];
+        let inputs = ["ok", "warn", "err", "unreadable", "small"];
         let dests = ["absent", "existing", "readonly-file", "readonly-dir", "missing-parent", "parent-is-file", "dev-full"];
         for backend in ["rasn", "ts"] {
             for input in inputs {
@@ -372,6 +385,8 @@ impl Prop for C20 {
                     for mode in ["stdout", "none"] {
                         out.push(Case { steps: vec![Step { input: input.into(), source: source.into() }], mode: mode.into(), dest: "absent".into(), backend: backend.into(), via: "lib".into() });
                     }
+                    // standard output that accepts no byte (/dev/full): an unwritable destination like any other
+                    out.push(Case { steps: vec![Step { input: input.into(), source: source.into() }], mode: "stdout".into(), dest: "dev-full".into(), backend: backend.into(), via: "lib".into() });
                 }
                 // CLI
                 for source in ["cli-m", "cli-d"] {
@@ -380,7 +395,7 @@ impl Prop for C20 {
                             if (mode == "file-noext" || mode == "dir-dotted") && !matches!(dest, "absent" | "existing") {
                                 continue;
                             }
-                            if (mode == "stdout" || mode == "none") && dest != "absent" {
+                            if (mode == "stdout" || mode == "none") && dest != "absent" && !(mode == "stdout" && dest == "dev-full") {
                                 continue;
                             }
                             if (mode == "dir" || mode == "cli-default") && matches!(dest, "missing-parent" | "parent-is-file" | "dev-full") {
@@ -505,13 +520,15 @@ impl Prop for C20 {
         if c.dest == "readonly-dir" {
             chmod(&outd, 0o555);
         }
-        let unwritable = matches!(c.dest.as_str(), "readonly-file" | "readonly-dir" | "missing-parent" | "parent-is-file" | "dev-full") && !matches!(c.mode.as_str(), "stdout" | "none");
+        let unwritable = matches!(c.dest.as_str(), "readonly-file" | "readonly-dir" | "missing-parent" | "parent-is-file" | "dev-full") && !matches!(c.mode.as_str(), "stdout" | "none") || (c.mode == "stdout" && c.dest == "dev-full");
+        let full_stdout = c.mode == "stdout" && c.dest == "dev-full";
         for (si, step) in c.steps.iter().enumerate() {
             // sources of this step
             let texts: Vec<&str> = match step.input.as_str() {
                 "ok" => vec![OK_A, OK_B],
                 "warn" => vec![OK_A, WARN],
                 "err" => vec![OK_A, BAD],
+                "small" => vec![SMALL],
                 _ => vec![OK_A],
             };
             let sdir = inp.join(format!("s{si}"));
@@ -532,6 +549,9 @@ impl Prop for C20 {
             }
             std::fs::write(sdir.join("dir/sub/ignored.txt"), "this is §§ not ASN.1").unwrap();
             std::fs::write(sdir.join("dir/notes.asn.bak"), "neither is this").unwrap();
+            // a directory whose name ends like a module file is searched, not read
+            std::fs::create_dir_all(sdir.join("dir/sub/specs.asn")).unwrap();
+            std::fs::write(sdir.join("dir/sub/specs.asn/readme.txt"), "no module here").unwrap();
             // reference text
             let lits: Vec<String> = texts.iter().map(|t| t.to_string()).collect();
             let reference = if c.backend == "ts" { compile_ts(&lits) } else { compile_rasn(&lits, &Cfg::default()) };
@@ -576,6 +596,9 @@ impl Prop for C20 {
                 if fmt_env {
                     ch.env("CARGO_HOME", &cargo_home);
                 }
+                if full_stdout {
+                    ch.stdout(std::fs::OpenOptions::new().write(true).open("/dev/full").unwrap());
+                }
                 let o = ch.output();
                 match o {
                     Ok(o) => {
@@ -617,6 +640,9 @@ impl Prop for C20 {
                     _ => {}
                 }
                 cmd.arg("-b").arg(if c.backend == "ts" { "typescript" } else { "rasn" });
+                if full_stdout {
+                    cmd.stdout(std::fs::OpenOptions::new().write(true).open("/dev/full").unwrap());
+                }
                 match cmd.output() {
                     Ok(o) => {
                         let err = String::from_utf8_lossy(&o.stderr).to_string();
